@@ -401,6 +401,20 @@ func (m *c16) ops() []*c16Op {
 			must(err)
 			return k.N.Bytes()
 		}})
+	add(&c16Op{name: "util.UnmarshalTokenKey(hostile DER)", group: "codec", names: []string{"data"},
+		inputs: func(r *core.Rand) [][]byte {
+			// the well-framed hostile encodings one after the other (a counter, so that every one of them is used)
+			pa, ra := spkiAlgs()
+			all := rebuildTokenKeyDER(r, rk[0].N, rk[0].E, pa, ra)
+			return [][]byte{all[hostileDERIndex%len(all)]}
+		},
+		call: func(a [][]byte) []byte {
+			k, err := util.UnmarshalTokenKey(a[0])
+			if err != nil {
+				return []byte("rejected")
+			}
+			return append([]byte("accepted:"), k.N.Bytes()...)
+		}})
 	add(&c16Op{name: "type3.UnmarshalEncapKey", group: "codec", names: []string{"data"},
 		inputs: func(r *core.Rand) [][]byte { return [][]byte{iss3.NameKey().Marshal()} },
 		call: func(a [][]byte) []byte {
@@ -720,12 +734,19 @@ func c16FixedT5(iss5 *type5.BatchedPrivateIssuer) type5.BatchedPrivateTokenReque
 	return st
 }
 
+var hostileDERIndex int
+
 func runC16(c *core.Ctx) {
 	m := &c16{c: c, curve: elliptic.P384()}
 	ops := m.ops()
 	reps := c.Pick(4, 200)
 	for _, op := range ops {
-		for rep := 0; rep < reps; rep++ {
+		n := reps
+		if op.name == "util.UnmarshalTokenKey(hostile DER)" {
+			n = max(reps, 110) // at least once around the list of hostile encodings
+		}
+		for rep := 0; rep < n; rep++ {
+			hostileDERIndex = rep
 			if c.Next() {
 				m.runOp(op)
 				if rep == 0 {
